@@ -8,18 +8,23 @@ ALL_ZONES = ["UTC", "America/Los_Angeles", "Australia/Lord_Howe",
 
 PROFILES = {
     # -- fault-free, exact model -------------------------------------------
-    "C01": profile(scan=0.5, reads_after=(1, 4),
+    "C01": profile(scan=0.5, reads_after=(1, 4), zones=ALL_ZONES,
+                   flush_vary=True,
                    mix={"read": 8, "getter": 0}),
-    "C02": profile(modes=["r+", "r+", "r+", "w+"],
+    "C02": profile(modes=["r+", "r+", "r+", "w+"], zones=ALL_ZONES,
+                   flush_vary=True,
                    mix={"remove": 6, "drop": 1.5, "remove_all": 0.6,
                         "update": 1, "read": 3, "getter": 1}),
     "C03": profile(modes=["r+", "r+", "r+", "w+"], update_time_rich=True,
+                   zones=ALL_ZONES, flush_vary=True,
                    mix={"update": 6, "update_all": 2, "remove": 1,
                         "read": 3, "getter": 1}),
     "C06": profile(mix={"read": 3, "getter": 2, "lifecycle": 1.5,
                         "invalid": 1.5}, auto_index=[True, True, False],
+                   zones=ALL_ZONES, flush_vary=True,
                    len=(3, 60)),
-    "C07": profile(scan=0.5, read_vs_getter=0.1,
+    "C07": profile(scan=0.5, read_vs_getter=0.1, zones=ALL_ZONES,
+                   flush_vary=True,
                    alphabets=["plain", "hostile", "hostile"],
                    mix={"read": 0, "getter": 8}, reads_after=(1, 4)),
     "C08": profile(time="rich", zones=ALL_ZONES,
@@ -36,12 +41,14 @@ PROFILES = {
                         "drop": 0.8}),
     # -- the simulated disk -----------------------------------------------------
     "C04": profile(storages=["csv"], csv_vary=True, compact=0.5,
+                   zones=ALL_ZONES,
                    modes=["r+", "r+", "r+", "w+", "a+"], known_triggers=0.04,
                    alphabets=["plain", "hostile", "wide", "latin1",
                               "reserved"],
                    mix={"cursor": 3, "read": 2, "getter": 1,
                         "lifecycle": 1.2}, reads_after=(0, 2)),
     "C05": profile(storages=["csv"], compact=0.5, known_triggers=0.04,
+                   zones=ALL_ZONES,
                    alphabets=["hostile", "reserved", "wide", "hostile"],
                    numbers=["boundary", "boundary", "small"],
                    none_values=0.2,
